@@ -320,7 +320,12 @@ func (t *treeRun) randTok0(r *hx.Rng, bpc int, tight bool) string {
 		return "M:" + joinP(joinP(dir, a), b)
 	case k < 8:
 		n := pickName(treeFiles)
-		if n == "" {
+		// O_CREATE on a name that an earlier mkdir turned into a DIRECTORY: the specification opens what
+		// exists (ok), the code refuses a directory opened for writing since fix 39c502f (and handed out a
+		// writable handle on the directory before it). Both leave the volume unchanged; the outcome class of
+		// this one call is not what the tree correspondence is about, so it is not generated (the scripted
+		// dirTargets histories judge it on the real code).
+		if n == "" || t.isDir(joinP(dir, n)) {
 			return ""
 		}
 		return "c:" + joinP(dir, n)
